@@ -1147,6 +1147,8 @@ op_del = st.tuples(st.sampled_from(["del", "del", "pop", "popd"]), k_any)
 op_move1 = st.tuples(st.sampled_from(["first", "last"]), k_any)
 op_move2 = st.tuples(st.sampled_from(["before", "after"]), k_any, k_any)
 op_move2_live = st.tuples(st.sampled_from(["before", "after"]), k_live, k_live)
+op_move_self = st.builds(lambda name, k, flip: (name, k, k.swapcase() if flip else k),
+                         st.sampled_from(["before", "after"]), k_lit, st.booleans())
 op_read = st.tuples(st.sampled_from(["get", "in", "getd"]), k_any)
 op_setdefault = st.tuples(st.just("setdefault"), k_any, value)
 op_update = st.tuples(st.just("update"), st.sampled_from(["dict", "pairs", "kwargs", "mapping"]),
@@ -1164,7 +1166,7 @@ def weighted(*pairs):
 
 deb822_op = weighted(
     (18, op_new), (6, op_assign), (11, op_del), (1, st.just(("popitem",))),
-    (12, op_move1), (18, op_move2_live), (5, op_move2), (5, op_read),
+    (12, op_move1), (18, op_move2_live), (4, op_move2), (1, op_move_self), (5, op_read),
     (3, op_setdefault), (4, op_update), (5, sort_op), (2, st.just(("copy",))), (3, op_reparse),
     (1, st.just(("obs",))), (1, st.one_of(st.just(("clear",)), st.just(("obs",)))))
 
@@ -1180,6 +1182,10 @@ motif = st.one_of(
     # remove the head or the tail, then insert relative to the (new) head or tail
     st.tuples(st.tuples(st.just("del"), k_end), st.tuples(st.sampled_from(["before", "after"]), k_live, k_end)),
     st.tuples(st.tuples(st.just("del"), k_end), st.tuples(st.sampled_from(["before", "after"]), k_end, k_end)),
+    # ... in particular: insert before the (new) tail / after the (new) head, which moves neither end
+    st.tuples(st.tuples(st.just("del"), st.sampled_from([0, -1])),
+              st.one_of(st.tuples(st.just("before"), k_live, st.sampled_from([-1, [-1, "s"]])),
+                        st.tuples(st.just("after"), k_live, st.sampled_from([0, [0, "s"]])))),
     # re-order a key, then delete / re-order that same key (it now sits at the front / the back)
     st.tuples(st.tuples(st.just("first"), k_live), st.tuples(st.sampled_from(["del", "last", "pop"]), st.sampled_from([0, [0, "s"]]))),
     st.tuples(st.tuples(st.just("last"), k_live), st.tuples(st.sampled_from(["del", "first", "pop"]), st.sampled_from([-1, [-1, "u"]]))),
@@ -1237,9 +1243,26 @@ oset_op = st.one_of(
     st.tuples(st.just("extend"), st.lists(k_any, max_size=3)))
 
 
+oset_motif = st.one_of(
+    st.tuples(st.tuples(st.just("remove"), k_end), st.tuples(st.sampled_from(["before", "after"]), k_live, k_end)),
+    st.tuples(st.tuples(st.just("remove"), k_end), st.tuples(st.sampled_from(["before", "after"]), k_end, k_end)),
+    st.tuples(st.tuples(st.just("remove"), k_end), st.tuples(st.sampled_from(["first", "last"]), k_live),
+              st.tuples(st.just("add"), k_lit)),
+    st.tuples(st.tuples(st.just("remove"), st.sampled_from([0, -1])),
+              st.one_of(st.tuples(st.just("before"), k_live, st.sampled_from([-1, [-1, "s"]])),
+                        st.tuples(st.just("after"), k_live, st.sampled_from([0, [0, "s"]])))),
+    st.tuples(st.tuples(st.just("first"), k_live), st.tuples(st.just("remove"), st.sampled_from([0, [0, "s"]]))),
+    st.tuples(st.tuples(st.just("last"), k_live), st.tuples(st.just("remove"), st.sampled_from([-1, [-1, "s"]]))),
+)
+oset_chunk = weighted((6, oset_op.map(lambda o: (o,))), (1, oset_motif))
+
+
 def gen_oset(max_ops):
-    return st.builds(lambda ci, init, ops: {"kind": "oset", "ci": ci, "init": init, "ops": ops},
-                     st.booleans(), st.lists(k_lit, max_size=9), _sized(oset_op, max_ops))
+    return st.builds(lambda ci, init, chunks: {"kind": "oset", "ci": ci, "init": init,
+                                               "ops": _flatten(chunks, max_ops)},
+                     st.booleans(),
+                     st.one_of(st.lists(k_lit, max_size=4), st.lists(k_lit, min_size=4, max_size=12)),
+                     _sized(oset_chunk, max_ops))
 
 
 ll_value = st.sampled_from([0, 1, 2, 3, 4, 5, "x", "y"])
@@ -1344,7 +1367,7 @@ def make_machine(rec, excluded, last_failure):
         def move_relative_ends(self, name, k, r):
             self.run([name, _jsonable(k), _jsonable(r)])
 
-        @rule(op=weighted((3, op_move2), (3, op_read), (1, op_move1)))
+        @rule(op=weighted((3, op_move2), (3, op_read), (1, op_move1), (1, op_move_self)))
         def any_key_op(self, op):
             self.run(_jsonable(op))
 
@@ -1355,8 +1378,8 @@ def make_machine(rec, excluded, last_failure):
 
         @invariant()
         def agrees_with_model(self):
-            # the interpreter has compared after the step already; this re-observes the object so
-            # that a step which corrupted it *and* was skipped by a dead session cannot hide
+            # model agreement as a Hypothesis invariant: runs after @initialize and after every
+            # rule (the interpreter itself has already compared once inside the step)
             if self.session is not None and not self.dead:
                 try:
                     self.session.observe("invariant")
